@@ -17,26 +17,30 @@ func getIndelsPair(ref, query []byte, offsetRefCoord []int, offsetMSACoord []int
 		delOpen   bool
 		delStart  int
 		delLength int
+		refGaps   int // number of gap columns in the reference seen so far
 	)
 
 	variants := make([]Variant, 0)
 
 	for pos := range ref {
 		if ref[pos] == 244 { // insertion relative to reference (somewhere in the alignment)
+			refGaps++
 			if query[pos] == 244 { // insertion is not in this seq
 				continue
 			} else { // insertion is in this seq
 				if insOpen { // not the first position of an insertion
 					insLength++ // we increment the length counter
 				} else { // the first position of an insertion
-					insStart = pos // we record the first position of the insertion 0-based in alignment coordinates
+					// the number of reference bases to the left of the insertion. (offsetMSACoord is
+					// only defined at columns where the reference is not a gap, so it can't be used here)
+					insStart = pos - (refGaps - 1)
 					insLength = 1
 					insOpen = true
 				}
 			}
 		} else { // not an insertion relative to the reference at this position
 			if insOpen { // first base after an insertion, so we need to log the insertion
-				variants = append(variants, Variant{Changetype: "ins", Position: (insStart - offsetMSACoord[insStart]), Length: insLength})
+				variants = append(variants, Variant{Changetype: "ins", Position: insStart, Length: insLength})
 				insOpen = false
 			}
 			if query[pos] == 244 { // deletion in this seq
@@ -64,7 +68,7 @@ func getIndelsPair(ref, query []byte, offsetRefCoord []int, offsetMSACoord []int
 	// }
 	// catch insertions that abut the end of the alignment
 	if insOpen {
-		variants = append(variants, Variant{Changetype: "ins", Position: (insStart - offsetMSACoord[insStart]) + 1, Length: insLength})
+		variants = append(variants, Variant{Changetype: "ins", Position: insStart, Length: insLength})
 	}
 
 	return variants
